@@ -159,6 +159,28 @@ func (x *Exec) call(st *State, c *ast.CallExpr) []Value {
 		if sel, ok := x.info.Selections[se]; ok {
 			rv := x.expr(st, se.X)
 			recvT = sel.Recv()
+			// promoted method through one embedded (non-pointer) struct field
+			var embBase *Value
+			var embField string
+			var embStruct types.Type
+			if len(sel.Index()) == 2 {
+				baseT, isPtr := deref(rv.Ty)
+				stt, ok := baseT.Underlying().(*types.Struct)
+				if !ok || !isPtr {
+					x.unsup(c.Pos(), "promoted method on %s", rv.Ty)
+				}
+				f := stt.Field(sel.Index()[0])
+				if _, fp := f.Type().Underlying().(*types.Pointer); fp || !isStruct(f.Type()) {
+					x.unsup(c.Pos(), "promoted method through pointer/non-struct embedded field")
+				}
+				x.oblige(st, "nilptr", tNot(tEq(rv.T, mathInt(0))), c.Pos(), exprText(se.X)+" != nil")
+				b := rv
+				embBase, embField, embStruct = &b, f.Name(), baseT
+				rv = x.vc.readField(st, rv, f.Name())
+				recvT = f.Type()
+			} else if len(sel.Index()) > 2 {
+				x.unsup(c.Pos(), "deeply promoted method")
+			}
 			// auto address / deref to match the method's receiver
 			sig := fn.Type().(*types.Signature)
 			want := sig.Recv().Type()
@@ -175,9 +197,17 @@ func (x *Exec) call(st *State, c *ast.CallExpr) []Value {
 					tmp := x.vc.allocRef(st)
 					structT := rv.Ty
 					x.vc.storeStruct(st, tmp, structT, rv.T)
-					copyBack = func() {
-						nv := x.vc.loadStruct(st, tmp, structT)
-						x.assignTo(st, se.X, Value{T: nv, Ty: structT})
+					if embBase != nil {
+						eb, ef, es := *embBase, embField, embStruct
+						copyBack = func() {
+							nv := x.vc.loadStruct(st, tmp, structT)
+							x.vc.writeField(st, eb.T, es, ef, nv)
+						}
+					} else {
+						copyBack = func() {
+							nv := x.vc.loadStruct(st, tmp, structT)
+							x.assignTo(st, se.X, Value{T: nv, Ty: structT})
+						}
 					}
 					rv = Value{T: tmp, Ty: types.NewPointer(rv.Ty)}
 				}
@@ -214,6 +244,20 @@ func (x *Exec) call(st *State, c *ast.CallExpr) []Value {
 	cal := x.resolveCallee(fn, recvT, c)
 	if cal == nil || cal.ct == nil {
 		x.unsup(c.Pos(), "call to %s which has no contract", full)
+	}
+	if x.ct != nil {
+		for _, ab := range x.ct.AssumeBefore {
+			if ab.Case == cal.key {
+				st.assume(x.specEnv(st).evalBool(ab.Expr))
+			}
+		}
+	}
+	if cal.ct.Inline {
+		res := x.inlineCall(st, cal, recv, args, c.Pos())
+		if copyBack != nil {
+			copyBack()
+		}
+		return res
 	}
 	res := x.applyContract(st, cal, recv, args, c.Pos())
 	if copyBack != nil {
@@ -871,6 +915,10 @@ func (x *Exec) havocCall(st *State, cal *Callee, env *SpecEnv, pre *State) {
 	vc := x.vc
 	ct := cal.ct
 	eff := cal.eff
+	if ct.Havoc || eff.All {
+		vc.havocAll(st, x.preservedTypes(cal.pkg, ct, token.NoPos))
+		return
+	}
 	if len(eff.Unknown) > 0 && !ct.Trusted {
 		x.unsup(token.NoPos, "callee %s has calls with unknown effects: %s", cal.key, strings.Join(eff.Unknown, ", "))
 	}
@@ -882,12 +930,32 @@ func (x *Exec) havocCall(st *State, cal *Callee, env *SpecEnv, pre *State) {
 	if os.Getenv("GOVC_DEBUG") != "" {
 		fmt.Fprintf(os.Stderr, "havocCall %s A=%v W=%v hasAssigns=%v\n", cal.key, len(eff.A), len(eff.W), ct.HasAssigns)
 	}
-	if len(eff.A) > 0 || !ct.HasAssigns {
+	if len(eff.A) > 0 || !ct.HasAssigns || ct.Trusted {
 		na := vc.fresh("alloc", "Int")
 		st.assume(app("Bool", "<=", allocOld, na))
 		st.alloc = na
 	}
-	for _, k := range eff.kindsW() {
+	wkinds := eff.kindsW()
+	if ct.Trusted {
+		// trusted contract: the written kinds are those of its assigns clause
+		have := map[string]bool{}
+		for _, k := range wkinds {
+			have[k.Name] = true
+		}
+		var extra []string
+		for kn := range ms {
+			if !have[kn] {
+				extra = append(extra, kn)
+			}
+		}
+		sort.Strings(extra)
+		for _, kn := range extra {
+			if k := vc.kinds[kn]; k != nil {
+				wkinds = append(wkinds, k)
+			}
+		}
+	}
+	for _, k := range wkinds {
 		names, sorts := vc.heapVars(k)
 		refs, inMs := ms[k.Name]
 		for i, hv := range names {
@@ -1072,4 +1140,215 @@ func sortedNames(m map[string]Value) []string {
 	}
 	sort.Strings(out)
 	return out
+}
+
+// inlineCall executes a trivial leaf function (contract marked inline) in the
+// caller's state: its "contract" is its strongest postcondition, recomputed
+// from the body on every run.
+func (x *Exec) inlineCall(st *State, cal *Callee, recv *Value, args []Value, pos token.Pos) []Value {
+	if x.inlineDepth > 6 {
+		x.unsup(pos, "inline depth exceeded at %s", cal.key)
+	}
+	fd := cal.pkg.FindFuncObj(cal.fn)
+	if fd == nil || fd.Body == nil {
+		x.unsup(pos, "inline function %s has no body", cal.key)
+	}
+	sub := &Exec{vc: x.vc, pkg: cal.pkg, info: cal.pkg.Info, fd: fd, ct: cal.ct, params: map[string]Value{}, names: map[string]types.Object{},
+		strLits: x.strLits, noOv: map[string]bool{}, rawVars: map[types.Object]bool{}, rangeKey: map[string]Term{}, entry: x.entry, entry0: x.entry0, inlineDepth: x.inlineDepth + 1}
+	sub.fnObj = cal.fn
+	sig := cal.fn.Type().(*types.Signature)
+	if sig.Recv() != nil && recv != nil && sig.Recv().Name() != "_" && sig.Recv().Name() != "" {
+		st.vars[sig.Recv()] = Value{T: recv.T, Ty: sig.Recv().Type(), Fn: recv.Fn}
+		sub.names[sig.Recv().Name()] = sig.Recv()
+		if _, isPtr := sig.Recv().Type().Underlying().(*types.Pointer); isPtr {
+			x.oblige(st, "nilptr", tNot(tEq(recv.T, mathInt(0))), pos, "receiver of "+cal.key+" != nil")
+		}
+	}
+	for i := 0; i < sig.Params().Len(); i++ {
+		p := sig.Params().At(i)
+		if p.Name() == "_" || p.Name() == "" {
+			continue
+		}
+		v := args[i]
+		if v.Fn == nil {
+			v.Ty = p.Type()
+		}
+		st.vars[p] = v
+		sub.names[p.Name()] = p
+	}
+	for i := 0; i < sig.Results().Len(); i++ {
+		r := sig.Results().At(i)
+		var obj types.Object = r
+		if r.Name() == "" || r.Name() == "_" {
+			obj = types.NewVar(token.NoPos, cal.pkg.Types, fmt.Sprintf("result!%d", i), r.Type())
+		}
+		st.vars[obj] = Value{T: x.vc.zero(r.Type()), Ty: r.Type()}
+		sub.results = append(sub.results, obj)
+	}
+	f := sub.block(st, fd.Body.List)
+	rets := sub.rets
+	if f.next != nil {
+		rets = append(rets, f.next)
+	}
+	merged := x.vc.mergeStates(rets)
+	if merged == nil {
+		// the callee never returns normally
+		st.assume(tFalse)
+		out := make([]Value, len(sub.results))
+		for i, o := range sub.results {
+			out[i] = Value{T: x.vc.zero(o.Type()), Ty: o.Type()}
+		}
+		return out
+	}
+	*st = *merged
+	out := make([]Value, len(sub.results))
+	for i, o := range sub.results {
+		out[i] = st.vars[o]
+	}
+	return out
+}
+
+// preservedTypes resolves the `preserves` clause of a havoc contract: the
+// fields of the named struct types that no statement of the package assigns
+// (outside constructor functions new*/New*) and whose address is never taken
+// are kept across the havoc. Code of other packages cannot name the
+// (unexported) fields. Fields that are assigned somewhere are havocked.
+func (x *Exec) preservedTypes(pkg *Pkg, ct *FuncContract, pos token.Pos) []PreservedField {
+	return preservedFields(x.vc, pkg, ct)
+}
+
+type PreservedField struct {
+	T     types.Type
+	Field string
+}
+
+func preservedFields(vc *VC, pkg *Pkg, ct *FuncContract) []PreservedField {
+	var out []PreservedField
+	for _, n := range ct.Preserves {
+		// "caller.X": resolved in (and checked over) the package of the function
+		// under verification: a generic helper (coroutine) runs closures of its
+		// client package
+		if strings.HasPrefix(n, "caller.") {
+			n = strings.TrimPrefix(n, "caller.")
+			pkg = vc.pkg
+		}
+		if strings.HasPrefix(n, "[]") {
+			// slice kind: preserved when no statement of the package stores into
+			// or appends to a slice of that type (outside constructors)
+			te, err := ParseTypeExpr(n)
+			if err != nil {
+				continue
+			}
+			env := &SpecEnv{vc: vc, pkg: pkg, vars: map[string]Value{}, tparams: map[string]types.Type{}}
+			var st types.Type
+			func() {
+				defer func() { recover() }()
+				st = env.resolveType(te)
+			}()
+			if st == nil {
+				continue
+			}
+			if !slicesModified(pkg, st) {
+				out = append(out, PreservedField{T: st})
+			}
+			continue
+		}
+		tn, ok := pkg.Types.Scope().Lookup(n).(*types.TypeName)
+		if !ok || !isStruct(tn.Type()) {
+			continue
+		}
+		assigned := assignedFieldsOf(pkg, tn.Type())
+		si := vc.structInfo(tn.Type())
+		for _, fn := range si.FNames {
+			if !assigned[fn] {
+				out = append(out, PreservedField{tn.Type(), fn})
+			}
+		}
+	}
+	return out
+}
+
+var assignedCache = map[string]map[string]bool{}
+
+func assignedFieldsOf(pkg *Pkg, t types.Type) map[string]bool {
+	key := pkg.Dir + "|" + t.String()
+	if m, ok := assignedCache[key]; ok {
+		return m
+	}
+	found := map[string]bool{}
+	for _, f := range pkg.Files {
+		for _, d := range f.Decls {
+			fd, ok := d.(*ast.FuncDecl)
+			if !ok || fd.Body == nil {
+				continue
+			}
+			if strings.HasPrefix(fd.Name.Name, "new") || strings.HasPrefix(fd.Name.Name, "New") {
+				continue
+			}
+			check := func(lhs ast.Expr) {
+				if se, ok := ast.Unparen(lhs).(*ast.SelectorExpr); ok {
+					bt := pkg.Info.TypeOf(se.X)
+					if bt == nil {
+						return
+					}
+					et, _ := deref(bt)
+					if types.Identical(et, t) {
+						found[se.Sel.Name] = true
+					}
+				}
+			}
+			ast.Inspect(fd.Body, func(n ast.Node) bool {
+				switch s := n.(type) {
+				case *ast.AssignStmt:
+					for _, l := range s.Lhs {
+						check(l)
+					}
+				case *ast.IncDecStmt:
+					check(s.X)
+				case *ast.UnaryExpr:
+					if s.Op == token.AND {
+						check(s.X) // address of a field escapes: treat as assigned
+					}
+				}
+				return true
+			})
+		}
+	}
+	assignedCache[key] = found
+	return found
+}
+
+func slicesModified(pkg *Pkg, st types.Type) bool {
+	mod := false
+	for _, f := range pkg.Files {
+		for _, d := range f.Decls {
+			fd, ok := d.(*ast.FuncDecl)
+			if !ok || fd.Body == nil {
+				continue
+			}
+			if strings.HasPrefix(fd.Name.Name, "new") || strings.HasPrefix(fd.Name.Name, "New") {
+				continue
+			}
+			ast.Inspect(fd.Body, func(n ast.Node) bool {
+				switch s := n.(type) {
+				case *ast.AssignStmt:
+					for _, l := range s.Lhs {
+						if ie, ok := ast.Unparen(l).(*ast.IndexExpr); ok {
+							if t := pkg.Info.TypeOf(ie.X); t != nil && types.Identical(t, st) {
+								mod = true
+							}
+						}
+					}
+				case *ast.CallExpr:
+					if id, ok := s.Fun.(*ast.Ident); ok && (id.Name == "append" || id.Name == "copy") {
+						if t := pkg.Info.TypeOf(s.Args[0]); t != nil && types.Identical(t, st) {
+							mod = true
+						}
+					}
+				}
+				return true
+			})
+		}
+	}
+	return mod
 }
